@@ -269,9 +269,9 @@ mod foreign {
     }
 }
 #[cfg(feature = "own_impls")]
-use foreign::check_foreign_tags;
+pub(crate) use foreign::check_foreign_tags;
 #[cfg(not(feature = "own_impls"))]
-fn check_foreign_tags(_g: &mut Gen, ctx: &mut Ctx) -> CaseResult {
+pub(crate) fn check_foreign_tags(_g: &mut Gen, ctx: &mut Ctx) -> CaseResult {
     ctx.class("foreign-tagged-type:not-built");
     Ok(())
 }
